@@ -1,4 +1,5 @@
 import ArrowModel.C02.Lemmas
+import ArrowModel.C02.EqLeaf
 /-
 C02 — property statements.
 
@@ -9,6 +10,85 @@ little-endian bytes, so floats are compared by bit pattern, as `arrow-data/src/e
 -/
 namespace ArrowModel.C02
 open ArrowModel.Physical
+
+/-! ## Theorem 1 — `==` is logical equality -/
+
+/-- **Equality of fixed-width arrays is logical equality** (all primitive types — integers, floats
+by bit pattern, decimals, dates/times/intervals — and `FixedSizeBinary`): for well-formed `a b`,
+`ArrayData::eq` / `Array::eq` (`equal`, `equal_nulls`, `primitive_equal` / `fixed_binary_equal`
+with all three of their paths) holds exactly when the data types coincide and the arrays decode
+to the same column.  Offsets, bitmap presence, padding and bytes under null slots play no role. -/
+theorem equalModel_fixed_iff {a b : ArrayData} {w : Nat} (hwa : WellFormed a) (hwb : WellFormed b)
+    (ht : a.type = .prim w ∨ a.type = .fsb w) :
+    equalModel a b = true ↔ LogicallyEqual a b := by
+  unfold LogicallyEqual
+  by_cases hty : a.type = b.type
+  · have htb : b.type = .prim w ∨ b.type = .fsb w := by rw [← hty]; exact ht
+    obtain ⟨hna, hca, la, hba, hla⟩ := wf_fixed hwa ht
+    obtain ⟨hnb, hcb, lb, hbb, hlb⟩ := wf_fixed hwb htb
+    rw [decode_fixed ht hna hca hba hla, decode_fixed htb hnb hcb hbb hlb]
+    have hev : equalValuesT a.type a b 0 0 a.len = fixedEqual w a b 0 0 a.len := by
+      rcases ht with ht | ht <;> rw [ht] <;> simp [equalValuesT]
+    unfold equalModel baseEqual
+    rw [hev]
+    by_cases hlen : a.len = b.len
+    · have := fixed_core w a b la lb hna hnb hba hbb hla hlb hlen
+      simp only [hty, hlen, decide_true, beq_self_eq_true, Bool.true_and, true_and, Option.some.injEq] at this ⊢
+      rw [← this]
+    · constructor
+      · intro h; simp [hlen] at h
+      · rintro ⟨_, h⟩
+        have := congrArg List.length (Option.some.inj h)
+        simp at this
+        exact absurd this hlen
+  · constructor
+    · intro h; simp [equalModel, baseEqual, hty] at h
+    · rintro ⟨h, _⟩; exact absurd h hty
+
+/-- Int32 `[1, null]`, once compact with a zeroed null slot, once at offset 1 with garbage under
+the null and in the padding: both well-formed, logically equal, and `equalModel` says so. -/
+example :
+    wellFormedB ⟨.prim 4, 2, 0, some ⟨[1], 0, 2, 1⟩, [[1, 0, 0, 0, 0, 0, 0, 0]], []⟩ = true ∧
+    wellFormedB ⟨.prim 4, 2, 1, some ⟨[0xfa], 1, 2, 1⟩, [[9, 9, 9, 9, 1, 0, 0, 0, 7, 7, 7, 7]], []⟩ = true ∧
+    equalModel ⟨.prim 4, 2, 0, some ⟨[1], 0, 2, 1⟩, [[1, 0, 0, 0, 0, 0, 0, 0]], []⟩
+      ⟨.prim 4, 2, 1, some ⟨[0xfa], 1, 2, 1⟩, [[9, 9, 9, 9, 1, 0, 0, 0, 7, 7, 7, 7]], []⟩ = true ∧
+    logicallyEqualB ⟨.prim 4, 2, 0, some ⟨[1], 0, 2, 1⟩, [[1, 0, 0, 0, 0, 0, 0, 0]], []⟩
+      ⟨.prim 4, 2, 1, some ⟨[0xfa], 1, 2, 1⟩, [[9, 9, 9, 9, 1, 0, 0, 0, 7, 7, 7, 7]], []⟩ = true := by
+  decide
+
+/-- the same statement for the types `equalModel` covers but for which the proof is not done:
+checked on every generated pair by the driver (`eq=` must equal `spec=`), not proved.
+Gap: Null, Boolean (bit offsets, byte-aligned fast path), Utf8/Binary (offset rebasing,
+`lengths_equal`), and the induction over the type tree for List / FixedSizeList / Struct /
+Dictionary / RunEndEncoded.  The statement below is the proved instance restricted to a leaf
+type test `fixedLeaf`. -/
+theorem equalModel_iff_partial {a b : ArrayData} (hwa : WellFormed a) (hwb : WellFormed b)
+    (ht : ∃ w, a.type = .prim w ∨ a.type = .fsb w) :
+    equalModel a b = true ↔ (a.type = b.type ∧ decode a = decode b) := by
+  obtain ⟨w, ht⟩ := ht
+  exact equalModel_fixed_iff hwa hwb ht
+
+/-- `equal_nulls` compares validity slot by slot in all four (Some/None) combinations: a missing
+bitmap equals an all-valid bitmap (the `(Some, None)` case goes through `contains_nulls`) -/
+theorem equalNulls_logical (a b : ArrayData) (sa sb n : Nat) :
+    equalNulls a b sa sb n = true ↔ ∀ i, i < n → a.isValid (sa + i) = b.isValid (sb + i) :=
+  equalNulls_iff a b sa sb n
+
+/-- `contains_nulls` (first `BitSliceIterator` slice ≠ whole range) is exact -/
+theorem containsNulls_exact (n : Nulls) (off len : Nat) :
+    containsNulls (some n) off len = false ↔ ∀ i, i < len → nbit n (off + i) = true :=
+  containsNulls_eq_false_iff n off len
+
+/-- the three paths of `primitive_equal` / `fixed_binary_equal` on an arbitrary sub-range (as
+called from list / struct / dictionary parents), see `fixedEqual_iff` -/
+theorem fixedEqual_range (w : Nat) (a b : ArrayData) (la lb : List Nat) (sa sb n : Nat)
+    (hba : a.buffers = [la]) (hbb : b.buffers = [lb])
+    (hla : (a.offset + sa + n) * w ≤ la.length) (hlb : (b.offset + sb + n) * w ≤ lb.length)
+    (hm : ∀ i, i < n → a.isValid (sa + i) = b.isValid (sb + i)) :
+    fixedEqual w a b sa sb n = true ↔
+      ∀ i, i < n → a.isValid (sa + i) = true →
+        slotBytes la w (a.offset + sa + i) = slotBytes lb w (b.offset + sb + i) :=
+  fixedEqual_iff w a b la lb sa sb n hba hbb hla hlb hm
 
 /-! ## Theorem 2 — slicing -/
 
